@@ -213,8 +213,9 @@ func Decrypt(in io.Reader, opts DecryptOptions) (io.Reader, error) {
 
 	// Unwrap the file key
 	// Note: we're skipping the nonce and tag parameters at the moment because none of the supported ciphers use them
-	fileKeyBytes, _ := opts.UnwrapKeyFn(manifestObj.WFK, string(manifestObj.KeyWrappingAlgorithm), keyName, nil, nil)
-	if len(fileKeyBytes) != 32 {
+	fileKeyBytes, unwrapErr := opts.UnwrapKeyFn(manifestObj.WFK, string(manifestObj.KeyWrappingAlgorithm), keyName, nil, nil)
+	unwrapFailed := unwrapErr != nil || len(fileKeyBytes) != 32
+	if unwrapFailed {
 		// This is where things get a bit tricky.
 		// If the UnwrapKeyFn returned an error, we want to ignore that for now, and instead continue validating the MAC using an empty fileKey (which will fail).
 		// This is because otherwise we may be making it easier to disclose certain information such as whether a key exists or not in the vault via timing attacks.
@@ -233,6 +234,11 @@ func Decrypt(in io.Reader, opts DecryptOptions) (io.Reader, error) {
 	err = fk.VerifyHeaderSignature(manifest, mac)
 	if err != nil {
 		return nil, err
+	}
+	if unwrapFailed {
+		// The all-zero key used above is not a secret: anyone can compute a MAC (and encrypt segments) with it.
+		// A header that validates under it must not be accepted, or a document with a bogus wrapped key would decrypt successfully.
+		return nil, ErrDecryptionSignature
 	}
 
 	// Start a background goroutine to perform the encryption, and return the stream to the caller
